@@ -56,11 +56,20 @@ def strip_comments(src: str) -> str:
 
 
 def theorem_names(prop: str):
+    """Property theorems: every `theorem Cxx_*` in Props/Cxx.lean and in the Props/Cxx*.lean files it imports."""
     f = LEAN / "PyttbModel" / "Props" / f"{prop}.lean"
     if not f.exists():
         return []
-    src = strip_comments(f.read_text())
-    return re.findall(rf"^\s*theorem\s+({prop}_\w+)", src, flags=re.M)
+    files = [f]
+    for imp in re.findall(rf"^import\s+PyttbModel\.Props\.({prop}\w+)", f.read_text(), flags=re.M):
+        g = LEAN / "PyttbModel" / "Props" / f"{imp}.lean"
+        if g.exists():
+            files.append(g)
+    names = []
+    for g in files:
+        src = strip_comments(g.read_text())
+        names += re.findall(rf"^\s*theorem\s+({prop}_\w+)", src, flags=re.M)
+    return names
 
 
 def import_closure(prop: str):
